@@ -1,4 +1,25 @@
+//! h_expr — expression-level properties (DESIGN.md §3 "Expressions" and C40).
+//!
+//! * C08 numeric comparisons agree with the mathematical order for every int/float mix, in every
+//!   evaluation context (`c08.rs`)
+//! * C10 constant folding never changes what an expression computes (`c10.rs`)
+//! * C11 evaluating any expression never panics (child-process shards, `c11.rs`)
+//! * C40 value equality is an equivalence consistent with hashing (`c40.rs`)
+
+mod c08;
+mod c10;
+mod c11;
+mod c40;
+mod common;
+
 fn main() {
     let args = mc::parse_args();
-    mc::machinery_error(&format!("{} is not built yet", args.prop));
+    // each module installs mc::quiet_panics() after its self-test, so a failing self-test is loud
+    match args.prop.as_str() {
+        "C08" => c08::run(&args),
+        "C10" => c10::run(&args),
+        "C11" => c11::run(&args),
+        "C40" => c40::run(&args),
+        other => mc::machinery_error(&format!("h_expr serves C08, C10, C11, C40 (got {other})")),
+    }
 }
